@@ -159,7 +159,8 @@ def scan_decls(toks, owner):
                 close = find_matching(toks, j)
                 if close + 1 < n and toks[close + 1].text == "->":
                     if type_mentions_hash(toks, close + 2, {"{", ";", "where"}):
-                        fns.add(toks[i + 1].text)
+                        # (name, visible outside its crate?) — `pub fn` only; `pub(crate) fn` and private fns are not
+                        fns.add((toks[i + 1].text, i >= 1 and toks[i - 1].text == "pub"))
     return locals_, fields, fns
 
 
@@ -193,6 +194,8 @@ def scan_sites(rel, toks, spans, owner, locals_, fields, hash_fns, let_fn_bound)
     n = len(toks)
     def fn_name(i):
         return spans[owner[i]][3] if owner[i] >= 0 else ""
+    def is_field_use(i):
+        return i >= 1 and toks[i - 1].text == "."
     def is_hash_name(i, name):
         """identifier `name` used at token i (the identifier itself is toks[i])"""
         if i >= 1 and toks[i - 1].text == ".":
@@ -205,9 +208,9 @@ def scan_sites(rel, toks, spans, owner, locals_, fields, hash_fns, let_fn_bound)
         if t.kind == "ident" and t.text in ITER_METHODS and i >= 2 and toks[i - 1].text == "." and i + 1 < n and toks[i + 1].text == "(":
             r = receiver_name(toks, i - 1)
             if r and r[0] == "name" and is_hash_name(i - 2, r[1]):
-                sites.append((rel, fn_name(i), r[1], t.text))
+                sites.append((rel, fn_name(i), r[1], t.text, "field" if is_field_use(i - 2) else "local"))
             elif r and r[0] == "call" and r[1] in hash_fns:
-                sites.append((rel, fn_name(i), r[1] + "()", t.text))
+                sites.append((rel, fn_name(i), r[1] + "()", t.text, "call"))
         if t.text == "for" and t.kind == "ident":
             depth = 0
             j = i + 1
@@ -238,17 +241,17 @@ def scan_sites(rel, toks, spans, owner, locals_, fields, hash_fns, let_fn_bound)
                 if expr:
                     last = expr[-1]
                     if last.kind == "ident" and all(e.kind == "ident" or e.text in (".", "::", "*") for e in expr) and is_hash_name(m - 1, last.text):
-                        sites.append((rel, fn_name(i), last.text, "for"))
+                        sites.append((rel, fn_name(i), last.text, "for", "field" if is_field_use(m - 1) else "local"))
                     elif last.text == ")":
                         r = receiver_name(toks, m)
                         if r and r[0] == "call" and r[1] in hash_fns:
-                            sites.append((rel, fn_name(i), r[1] + "()", "for"))
+                            sites.append((rel, fn_name(i), r[1] + "()", "for", "call"))
         if t.kind == "ident" and t.text in ("extend", "from_iter") and i + 3 < n and toks[i + 1].text == "(":
             k = i + 2
             while toks[k].text in ("&", "mut"):
                 k += 1
             if toks[k].kind == "ident" and toks[k + 1].text == ")" and is_hash_name(k, toks[k].text):
-                sites.append((rel, fn_name(i), toks[k].text, t.text))
+                sites.append((rel, fn_name(i), toks[k].text, t.text, "field" if is_field_use(k) else "local"))
     return sites
 
 
@@ -261,7 +264,12 @@ def scan_crates(repo, crate_dirs):
                     files.append(os.path.relpath(os.path.join(root, f), repo))
     files.sort()
     per = {}
-    fields, fn_names = set(), set()
+    fields, fn_decls = set(), set()   # fn_decls: (crate dir, name, pub)
+    def crate_of(rel):
+        for d in crate_dirs:
+            if rel.startswith(d.rstrip("/") + "/"):
+                return d
+        return ""
     for rel in files:
         with open(os.path.join(repo, rel), encoding="utf-8") as fh:
             toks = strip_tests(tokenize(fh.read()))
@@ -270,10 +278,16 @@ def scan_crates(repo, crate_dirs):
         locals_, flds, fns = scan_decls(toks, owner)
         per[rel] = (toks, spans, owner, locals_)
         fields |= flds
-        fn_names |= fns
+        fn_decls |= {(crate_of(rel), name, is_pub) for (name, is_pub) in fns}
+    def fn_names_for(rel):
+        """hash-returning functions a call in `rel` can reach by name: those of its own crate, and the `pub` ones of
+        the other crates (a private helper called `definitions` in one crate says nothing about `.definitions()` in another)"""
+        c = crate_of(rel)
+        return {name for (cr, name, is_pub) in fn_decls if cr == c or is_pub}
     # a local initialised from a hash-returning fn is hash-bound too: `let x = a.implementers_map();`
     for rel, (toks, spans, owner, locals_) in per.items():
         n = len(toks)
+        fn_names = fn_names_for(rel)
         for i, t in enumerate(toks):
             if t.text == "let" and t.kind == "ident":
                 j = i + 1
@@ -289,9 +303,9 @@ def scan_crates(repo, crate_dirs):
                                 locals_[key] = end
     sites = []
     for rel, (toks, spans, owner, locals_) in per.items():
-        sites += scan_sites(rel, toks, spans, owner, locals_, fields, fn_names, None)
+        sites += scan_sites(rel, toks, spans, owner, locals_, fields, fn_names_for(rel), None)
     sites = sorted(set(sites))
-    return sites, sorted(fields), sorted(fn_names)
+    return sites, sorted(fields), sorted({name for (_, name, _) in fn_decls})
 
 
 if __name__ == "__main__":
